@@ -142,7 +142,9 @@ func checkC16(tier string, seed int64) int {
 	// layouts compared with each other (goatlang against goatlang): declarations named like builtins
 	lagg := NewAgg()
 	lres := c.runLemmaHarnesses([]string{"verifC16Layouts"}, "z3", lagg)
-	c.confirmLemmaFailures(lres, func(id string) string { return "layout obligation " + strings.TrimPrefix(id, "C16/layouts/") + " fails" })
+	c.confirmLemmaFailures(lres, func(id string) string {
+		return "layout obligation " + strings.TrimPrefix(id, "C16/layouts/") + " fails"
+	})
 	lagg.Into(c, "selfcompare_")
 	c.Assumption("layout self-comparison: one package with functions named like the builtins len and append, a struct type and a method, in 6 permutations × 6 file splits (1–3 files); every layout must give the result and output of the first layout for every argument (compared between layouts, not with Go: goatlang resolves such names to the builtin)")
 	rng := rand.New(rand.NewSource(seed))
